@@ -122,7 +122,9 @@ func init() { vxRegister("vxH_C16_dirtyLimit", vxH_C16_dirtyLimit) }
 func vxH_C16_dirtyLimit() {
 	co := CollectionOptions{MaxDirtyOps: 1}
 	ll := vxNewLL(nil)
-	mode := vxChoose(4) // 0 succeeds, 1 first update fails, 2 stalled then fails, 3 stalled then succeeds
+	// (ordered so that the depth-first search meets the natively
+	// reproducible schedules first)
+	mode := 3 - vxChoose(4) // 0 succeeds, 1 first update fails, 2 stalled then fails, 3 stalled then succeeds
 	closing := make(chan struct{})
 	switch mode {
 	case 1:
@@ -169,10 +171,18 @@ func vxH_C16_dirtyLimit() {
 			defer wg.Done()
 			<-closing
 			vxYield()
+			if !vxSymbolic() {
+				// natively "Close has begun" is only the first event of
+				// Close: wait until the collection is marked closed, the
+				// order the executor reaches by scheduling
+				for n := 0; n < 2000 && !c.isClosed(); n++ {
+					vxYield()
+				}
+			}
 			close(ll.release)
 		}()
 	}
-	if vxChoose(2) == 1 {
+	if vxChoose(2) == 0 {
 		vxQuiesce() // merger and persister get as far as they can first
 	}
 	cerr := c.Close()
